@@ -25,7 +25,7 @@ if rnd:
         where = " ".join(re.sub(r"^\+\+\+ b/", "", h.strip()) if h.startswith("+++") else h.strip().split("@@")[-1].strip() for h in hunks)[:300]
         prev.append(f"- [{where}] needs: {m['needs_to_manifest']}")
     t = t.replace("Task: produce TWO independent,", "Changes ALREADY collected for this property in an earlier round (do NOT reproduce these or close variants; pick other mechanisms, other functions, other clauses of the statement, other learner/runner types the property covers):\n" + "\n".join(prev) + "\n\nTask: produce TWO independent,")
-    letters = {"2": "{c, d}", "3": "{e, f}", "4": "{g, h}"}[rnd]
+    letters = {"2": "{c, d}", "3": "{e, f}", "4": "{g, h}", "5": "{i, j}", "6": "{k, l}"}[rnd]
     t = t.replace("{a, b}", letters)
 open(f"{out}/prompt.txt", "w").write(t.replace('{WT}', wt).replace('{OUT}', out).replace('{PROP}', prop).replace('{TESTS}', tests))
 print("ready", wt)
